@@ -11,9 +11,11 @@ for f in $demos; do
   pkg=./$(dirname $f)
   names=$(grep -h -o '^func Test[A-Za-z0-9_]*' $f | sed 's/func //' | paste -sd'|')
   with=$(go test -count=1 -run "^($names)\$" $pkg 2>&1 | tail -1)
-  git stash -q
+  # (no git stash: the stash is shared by all worktrees of a repository)
+  git diff > .mut_confirm.patch
+  git checkout -q -- .
   without=$(go test -count=1 -run "^($names)\$" $pkg 2>&1 | tail -1)
-  git stash pop -q
+  git apply .mut_confirm.patch && rm -f .mut_confirm.patch
   out="$out demo[$pkg $names]: with=<$with> without=<$without>;"
 done
 touched=$(git diff --name-only | xargs -n1 dirname | sort -u | sed 's|^|./|')
